@@ -18,7 +18,8 @@ Grammar (everything else is refused)
   iterables    a list / tree | range(n) | enumerate(l[, start]) | reversed(l) | l[a:b]
   expressions  int constants, names, + - * and unary - on ints, comparisons, and/or/not (an operand with effects is
                sequenced by short-circuit evaluation), conditional expressions, len max min, tuples, list displays,
-               [e] * n, l[i], l[a:b], slice(a, b), comprehensions with one for clause and pure parts, attribute reads of the
+               [e] * n ([None] * n: a list of placeholders, items are stored as Some and the list is unwrapped where a list
+               of nodes is needed), l[i], l[a:b], slice(a, b), comprehensions with one for clause and pure parts, attribute reads of the
                signature table (.arity .ret .args .start .stop .root .height .terminals .primitives .ret .terminalRatio),
                random.random/randint/randrange/choice as typed draw sites, term() / type(x)() for ephemerals,
                type(x) is MetaEphemeral / isclass(x) / isinstance(type(x), MetaEphemeral) / isinstance(x, Primitive),
@@ -27,6 +28,8 @@ Grammar (everything else is refused)
 Types: Z (every Python int), bool, node, ty (a Python type object), frac (a float probability), pset, slice (two ints),
 mode, tree (a PrimitiveTree: item / slice assignment goes through __setitem__), lists, tuples, option, dd
 (defaultdict(list) from types to lists of ints), function types from the signature table.
+A name first bound inside a loop and read after it is carried as an option (`unbound` where it is read).
+C11_FORCE_REFUSE=<gen name>[,..] in the environment forces the refusal of functions (self-test of the proof scripts).
 Trees and lists are values in the generated text: an in-place change rebinds the name, so it is only accepted on a
 parameter of type tree (the signature table declares distinct tree parameters to be distinct objects) or on a local
 list created by the function itself and never bound to a second name.
